@@ -1635,7 +1635,12 @@ where
                 // But since the cluster is chatting about us possibly being
                 // down, we'll send a few updates around in order to help
                 // disseminate the refutation
-                self.gossip(runtime)?;
+                // Unless we're down already (we left the cluster, for
+                // example): refuting then would only delay the cluster
+                // from learning about it
+                if self.connection_state != ConnectionState::Undead {
+                    self.gossip(runtime)?;
+                }
             }
             State::Alive => {
                 // The cluster is talking about our liveness. Nothing to do.
